@@ -106,6 +106,10 @@ var scalars = []types.Value{
 	must(types.ParseDuration("-1ms")),   // 45
 	types.NewDatetimeFromMillis(-1),     // 46
 	must(types.ParseDecimal("-0.0001")), // 47
+	// instants outside the years 0000..9999 (expanded-year text forms)
+	types.NewDatetimeFromMillis(253402300800000), // 48
+	types.NewDatetimeFromMillis(-62198755200001), // 49
+	types.NewDatetimeFromMillis(4102444800000),   // 50 (2100-01-01)
 }
 
 // canon maps a universe index to the index of the canonical spelling of the same value.
